@@ -19,18 +19,21 @@ type C02Case struct {
 	Plugin C02Side           `json:"plugin"`
 	Proto  map[string]string `json:"proto"`  // version -> netrpc | grpc (same on both sides)
 	EnvRaw string            `json:"envRaw"` // "" = not run; otherwise the PLUGIN_PROTOCOL_VERSIONS value for a direct run ("<unset>" = variable absent)
+	// Plugin2: a second launch through the SAME *ClientConfig object, against a plugin with these sets
+	Plugin2 *C02Side `json:"plugin2,omitempty"`
 }
 
 type C02Obs struct {
-	StartErr   string `json:"startErr"`
-	Negotiated int    `json:"negotiated"`
-	Protocol   string `json:"protocol"`
-	PluginTag  string `json:"pluginTag"`
-	HostTag    string `json:"hostTag"`
-	CallErr    string `json:"callErr"`
-	Pid        int    `json:"pid"`
-	StateSoon  string `json:"stateSoon"`
-	RawLine    string `json:"rawLine"`
-	RawErr     string `json:"rawErr"`
-	SentList   string `json:"sentList"` // what the host actually put into PLUGIN_PROTOCOL_VERSIONS (from the plugin's env dump)
+	StartErr   string  `json:"startErr"`
+	Negotiated int     `json:"negotiated"`
+	Protocol   string  `json:"protocol"`
+	PluginTag  string  `json:"pluginTag"`
+	HostTag    string  `json:"hostTag"`
+	CallErr    string  `json:"callErr"`
+	Pid        int     `json:"pid"`
+	StateSoon  string  `json:"stateSoon"`
+	RawLine    string  `json:"rawLine"`
+	RawErr     string  `json:"rawErr"`
+	SentList   string  `json:"sentList"` // what the host actually put into PLUGIN_PROTOCOL_VERSIONS (from the plugin's env dump)
+	Second     *C02Obs `json:"second,omitempty"`
 }
